@@ -17,3 +17,41 @@ Theorem C07_regrouping_with_parentheses_is_irrelevant : forall rho d1 d2,
   forallb offset_free d1 = true -> forallb offset_free d2 = true ->
   flat_map pleaves d1 = flat_map pleaves d2 -> pos rho d1 = pos rho d2.
 Proof. exact regroup_invariant. Qed.
+
+(* "additional spaces = single spaces": the parser model (Model/Parse.v, tied to stage1/parse.py by the differential
+   correspondence of C12) gives the description with a doubled space the same tree up to source positions, or rejects both
+   at the same place - for every description (Proofs/ParseSim.v). *)
+From EinxV Require Import Model.Parse Proofs.ParseSim.
+Theorem C07_additional_spaces_are_single_spaces : forall pre post : list N,
+  match parse_op (pre ++ 32%N :: 32%N :: post), parse_op (pre ++ 32%N :: post) with
+  | Ok t', Ok t => erase t' = erase t
+  | Err site' _, Err site _ => site' = site
+  | Internal site', Internal site => site' = site
+  | _, _ => False
+  end.
+Proof. exact redundant_space_same_structure. Qed.
+Print Assumptions C07_additional_spaces_are_single_spaces.
+
+(* "un-bracketed reduction = brackets around the axes missing from the output".  Model/Lower.v [automark] puts the brackets;
+   it changes no name, length or position, brackets exactly the axes the output does not list, and the axes that remain are
+   those of the output in the input's order.  The correspondence check (harness/c01.py) compares the graph einx traces for
+   reductions WRITTEN WITHOUT BRACKETS with [lower_reduce f (automark din dout) dout] - the term of the bracketed form, to
+   which the C01 reduction theorems apply. *)
+From EinxV Require Import Model.Opt Model.Lower Proofs.LowerProofs.
+Theorem C07_unbracketed_reduction_brackets_the_missing_axes : forall din dout,
+  lnames (automark din dout) = lnames din /\ llens (automark din dout) = llens din /\
+  lmarks (automark din dout) = map (fun n => negb (memNb n (lnames dout))) (lnames din) /\
+  lnames (kept (automark din dout)) = filter (fun n => memNb n (lnames dout)) (lnames din).
+Proof. exact automark_spec. Qed.
+Print Assumptions C07_unbracketed_reduction_brackets_the_missing_axes.
+
+Theorem C07_brackets_move_nothing : forall rho din dout,
+  map (pidx rho) (automark din dout) = map (pidx rho) din /\ map psize (automark din dout) = map psize din.
+Proof. exact automark_same_positions. Qed.
+Print Assumptions C07_brackets_move_nothing.
+
+Example C07_automark_example :
+  (* "a (b c) -> c a": b gets the brackets *)
+  automark [PAx 1 2 false; PFl [PAx 2 3 false; PAx 3 4 false]] [PAx 3 4 false; PAx 1 2 false]
+  = [PAx 1 2 false; PFl [PAx 2 3 true; PAx 3 4 false]].
+Proof. vm_compute. reflexivity. Qed.
